@@ -51,7 +51,7 @@ def build(S, tier):
                 state_changed = sorted(k for k in set(v.attrs) | set(before) if v.attrs.get(k, None) is not before.get(k, None))
                 q1, p1 = atoms.positions.copy(), atoms.momenta.copy()
                 log1 = list(atoms.log)
-                atoms.momenta = Tensor((atoms.k, 3), [ops.unop(I, "USub", x) for x in atoms.momenta.data])
+                atoms.momenta.data[:] = [ops.unop(I, "USub", x) for x in atoms.momenta.data]
                 I.call(I.getattr(v, "integrate"), [ctx], {})
                 return dict(q0=q0, p0=p0, q1=q1, p1=p1, q2=atoms.positions.copy(), p2=atoms.momenta.copy(), log1=log1, dt=dt, v=v, atoms=atoms, state_changed=state_changed)
 
@@ -126,7 +126,8 @@ def build(S, tier):
         I.call(I.getattr(used, "integrate"), [mk_ctx(I, a)], {})                     # an earlier trajectory (then rejected)
         qa = Tensor((a.k, 3), [I.path.fresh(f"qr{i}") for i in range(a.k * 3)])       # the restored state: anything
         pa = Tensor((a.k, 3), [I.path.fresh(f"pr{i}") for i in range(a.k * 3)])
-        a.positions, a.momenta = qa.copy(), pa.copy()
+        a.positions.data[:] = qa.data            # restored IN PLACE, as Context.revert_state / ase do
+        a.momenta.data[:] = pa.data
         b.positions, b.momenta, b.masses, b.force_fns = qa.copy(), pa.copy(), a.masses, a.force_fns
         I.call(I.getattr(used, "integrate"), [mk_ctx(I, a)], {})
         I.call(I.getattr(fresh, "integrate"), [mk_ctx(I, b)], {})
@@ -204,11 +205,11 @@ def build(S, tier):
         atoms = AtomsMD(I)
         ctx = mk_ctx(I, atoms)
         def refresh(I_):
-            atoms.momenta = Tensor((atoms.k, 3), [I_.path.fresh(f"pr{i}") for i in range(atoms.k * 3)])
+            atoms.momenta.data[:] = [I_.path.fresh(f"pr{i}") for i in range(atoms.k * 3)]
             atoms.momenta_version += 1
         def integ(I_):
-            atoms.positions = Tensor((atoms.k, 3), [I_.path.fresh(f"qi{i}") for i in range(atoms.k * 3)])
-            atoms.momenta = Tensor((atoms.k, 3), [I_.path.fresh(f"pi{i}") for i in range(atoms.k * 3)])
+            atoms.positions.data[:] = [I_.path.fresh(f"qi{i}") for i in range(atoms.k * 3)]
+            atoms.momenta.data[:] = [I_.path.fresh(f"pi{i}") for i in range(atoms.k * 3)]
             atoms.momenta_version += 1
         dist = Recorder("distribution", atoms, refresh)
         integrator = Recorder("integrate", atoms, integ)
